@@ -44,6 +44,8 @@ COMBINATORS = {
     "core::option::Option::<T>::unwrap_or": (OPTION, None, [("ret", ("arg", 1)), ("ret", P)]),
     "core::option::Option::<T>::or": (OPTION, OPTION, [("ret", ("arg", 1)), ("wrap:Some", P)]),
     "core::option::Option::<T>::and": (OPTION, OPTION, [("wrap:None", None), ("ret", ("arg", 1))]),
+    "core::result::Result::<T, E>::ok": (RESULT, OPTION, [("wrap:Some", P), ("wrap:None", None)]),
+    "core::result::Result::<T, E>::err": (RESULT, OPTION, [("wrap:None", None), ("wrap:Some", P)]),
     "core::result::Result::<T, E>::map": (RESULT, RESULT, [("wrap:Ok", ("call", 1, True)), ("wrap:Err", P)]),
     "core::result::Result::<T, E>::map_err": (RESULT, RESULT, [("wrap:Ok", P), ("wrap:Err", ("call", 1, True))]),
     "core::result::Result::<T, E>::and_then": (RESULT, RESULT, [("ret", ("call", 1, True)), ("wrap:Err", P)]),
@@ -643,6 +645,60 @@ class Normalizer:
             return True
         return False
 
+    def try_array_contains(self, body, bb):
+        """`[a, b, ..].contains(&x)` on an array literal is `x == a || x == b || ..`: written out as the equality tests."""
+        t = body["blocks"][bb]["term"]
+        if t["callee"].get("def") != "core::slice::<impl [T]>::contains" or t.get("target") is None or len(t["args"]) != 2:
+            return False
+        if any(a["k"] == "const" for a in t["args"]):
+            return False
+        # chase the receiver to the array literal
+        cur, hops, lit = t["args"][0]["p"], 0, None
+        while hops < 8 and not cur["proj"]:
+            hops += 1
+            ds = self.defs_of(body, cur["l"])
+            if len(ds) != 1 or ds[0][0] != "stmt":
+                break
+            rv = ds[0][2]["rv"]
+            if rv["k"] == "aggregate" and rv.get("ak") == "array":
+                lit = (ds[0][2], rv)
+                break
+            if rv["k"] == "use" and rv["op"]["k"] in ("copy", "move"):
+                cur = rv["op"]["p"]
+            elif rv["k"] == "cast" and rv["op"]["k"] in ("copy", "move"):
+                cur = rv["op"]["p"]
+            elif rv["k"] == "ref":
+                cur = {"l": rv["p"]["l"], "proj": [e for e in rv["p"]["proj"] if e["k"] != "deref"], "ty": rv["p"]["ty"]}
+            else:
+                break
+        if lit is None or not (1 <= len(lit[1]["ops"]) <= 8):
+            return False
+        aty = lit[0]["p"]["ty"]
+        mm = re.match(r"\[(.*); \d+\]$", aty)
+        if not mm:
+            return False
+        ety = mm.group(1)
+        span, dest, target = t["span"], t["dest"], t["target"]
+        xref = t["args"][1]
+        yes = self.new_block(body, [self.assign(copy.deepcopy(dest), self.use({"k": "const", "ty": "bool", "val": True}), span)], {"k": "goto", "target": target, "span": span})
+        nxt = self.new_block(body, [self.assign(copy.deepcopy(dest), self.use({"k": "const", "ty": "bool", "val": False}), span)], {"k": "goto", "target": target, "span": span})
+        for op in reversed(lit[1]["ops"]):
+            el = self.new_local(body, ety, "element of desugared contains()")
+            er = self.new_local(body, "&" + ety, "&element of desugared contains()")
+            bl = self.new_local(body, "bool", "equality of desugared contains()")
+            val_op = op if op["k"] == "const" else {"k": "copy", "p": copy.deepcopy(op["p"])}
+            test = self.new_block(body, [], {"k": "switch", "discr": self.mv(self.place(bl, "bool")), "arms": [{"v": "0", "t": nxt}], "otherwise": yes, "span": span})
+            callb = self.new_block(body, [self.assign(self.place(el, ety), self.use(val_op), span),
+                                          self.assign(self.place(er, "&" + ety), {"k": "ref", "bk": "shared", "p": self.place(el, ety)}, span)],
+                                   self.synth_call(body, "core::cmp::PartialEq::eq", [{"k": "copy", "p": copy.deepcopy(xref["p"])}, self.mv(self.place(er, "&" + ety))],
+                                                   self.place(bl, "bool"), test, span))
+            body["blocks"][callb]["term"]["callee"]["trait"] = "core::cmp::PartialEq"
+            body["blocks"][callb]["term"]["callee"]["self_ty"] = ety
+            nxt = callb
+        body["blocks"][bb]["term"] = {"k": "goto", "target": nxt, "span": span, "desugared": "slice::contains on an array literal"}
+        self.notes.append("N2 [..].contains(&x) written out in %s" % body["def"])
+        return True
+
     # ------------------------------------------------------------------ N3: awaited workspace coroutines
     def try_poll(self, unit, body, bb):
         t = body["blocks"][bb]["term"]
@@ -1113,7 +1169,7 @@ class Normalizer:
                 b = body["blocks"][i]
                 if not b["cleanup"] and b["term"]["k"] == "call" and len(body["blocks"]) < 4000:
                     self._unit = unit
-                    if (self.try_inline_fn(unit, body, i) or self.try_combinator(unit, body, i) or self.try_transpose(body, i) or self.try_option_misc(unit, body, i)
+                    if (self.try_inline_fn(unit, body, i) or self.try_combinator(unit, body, i) or self.try_transpose(body, i) or self.try_option_misc(unit, body, i) or self.try_array_contains(body, i)
                             or self.try_poll(unit, body, i) or self.try_cmp(body, i) or self.try_entry(body, i)
                             or self.try_iter_loop(unit, body, i) or self.try_range(body, i)):
                         changed = True
